@@ -47,6 +47,11 @@ STRUCT_ONLY = ['Add', 'SubAssign', 'Neg', 'BitXor', 'ShlAssign', 'Not']
 
 WR = '#[derive(Debug, PartialEq, Eq, PartialOrd, Ord, Hash)]\npub struct Wr<T: ?Sized>(pub T);\npub type Sl = [u8];\n'
 UNSIZED_WRAPPERS = [
+    # the last field next to a REFERENCE field of the same parameter (the bound `&'a T: Debug` of the other field must not
+    # capture the obligation of the last one)
+    ('Debug, Clone, PartialEq', "pub struct X<'a, T> { pub a: &'a T, pub b: T }"),
+    ('Debug', "pub struct X<'a, T: ?Sized>(pub &'a T, pub ::std::boxed::Box<T>, pub &'a T, pub T);"),
+    ('Debug, Hash', "pub struct X<'a, T>(pub &'a T, #[debug(transparent)] pub T);"),
     ('Debug, PartialEq, Eq, PartialOrd, Ord, Hash', 'pub struct X<U: ?Sized> { pub a: u8, pub b: Wr<U> }'),
     ('Debug, PartialEq', 'pub struct X<T, U>(pub T, pub ::core::mem::ManuallyDrop<U>) where U: ?Sized;'),
     ('Debug', 'pub struct X<U: ?Sized>(pub ::std::cell::RefCell<U>);'),
